@@ -412,7 +412,7 @@ def main(ctx):
     ctx.pmap(oversize_worker, [(ctx.seed * 100003 + 50 + i, 12 if quick else 100, known) for i in range(4)])
     ctx.pmap(boundary_worker, [(ctx.seed * 100003 + 70 + i, 4 if quick else 30, known) for i in range(8)])
     n = 25 if quick else 400
-    stop_at = time.time() + (80 if quick else 1600)
+    stop_at = time.time() + (80 if quick else 900)
     ctx.pmap(worker, [(ctx.seed * 100003 + i, n, known, stop_at) for i in range(common.NPROC)])
     ctx.rule = ("case = (generated string/raw-heavy program, base options) run in all four storage configurations, each built with clang "
                 "ASan+UBSan(+bounds)+LSan, on guided inputs up to 40 bytes (long enough to overflow the 1..8 byte buffers) byte-per-call and under "
